@@ -51,6 +51,14 @@ class error_999_visitor(pyx12.error_visitor.error_visitor):
         self.vriic = '005010X231'
 
 
+    def _echo(self, value):
+        """
+        A value copied from the received document must not add or split elements or segments of this document
+        """
+        for term in (self.seg_term, self.ele_term, self.subele_term, self.repetition_term):
+            value = value.replace(term, ' ')
+        return value
+
     def visit_root_pre(self, errh):
         """
         @param errh: Error handler
@@ -68,17 +76,17 @@ class error_999_visitor(pyx12.error_visitor.error_visitor):
         icvn = seg.get_value('ISA12')
         isa_seg = pyx12.segment.Segment('ISA*00*          *00*          ',
                                         self.seg_term, self.ele_term, self.subele_term)
-        isa_seg.set('05', seg.get_value('ISA07'))
-        isa_seg.set('06', seg.get_value('ISA08'))
-        isa_seg.set('07', seg.get_value('ISA05'))
-        isa_seg.set('08', seg.get_value('ISA06'))
+        isa_seg.set('05', self._echo(seg.get_value('ISA07')))
+        isa_seg.set('06', self._echo(seg.get_value('ISA08')))
+        isa_seg.set('07', self._echo(seg.get_value('ISA05')))
+        isa_seg.set('08', self._echo(seg.get_value('ISA06')))
         isa_seg.set('09', time.strftime('%y%m%d'))  # Date
         isa_seg.set('10', time.strftime('%H%M'))  # Time
         isa_seg.set('11', self.repetition_term)
         isa_seg.set('12', icvn)
         isa_seg.set('13', self.isa_control_num)  # ISA Interchange Control Number
         isa_seg.set('14', '0') # No need for TA1 response to 999
-        isa_seg.set('15', seg.get_value('ISA15'))
+        isa_seg.set('15', self._echo(seg.get_value('ISA15')))
         isa_seg.set('16', self.subele_term)
         self.wr.Write(isa_seg)
 
@@ -86,12 +94,12 @@ class error_999_visitor(pyx12.error_visitor.error_visitor):
         seg = errh.cur_gs_node.seg_data
         gs_seg = pyx12.segment.Segment('GS', '~', '*', ':')
         gs_seg.set('01', 'FA')
-        gs_seg.set('02', seg.get_value('GS03').rstrip())
-        gs_seg.set('03', seg.get_value('GS02').rstrip())
+        gs_seg.set('02', self._echo(seg.get_value('GS03')).rstrip())
+        gs_seg.set('03', self._echo(seg.get_value('GS02')).rstrip())
         gs_seg.set('04', time.strftime('%Y%m%d'))
         gs_seg.set('05', time.strftime('%H%M%S'))
         gs_seg.set('06', self.gs_control_num)
-        gs_seg.set('07', seg.get_value('GS07'))
+        gs_seg.set('07', self._echo(seg.get_value('GS07')))
         gs_seg.set('08', self.vriic)
         self.wr.Write(gs_seg)
 
@@ -131,9 +139,9 @@ class error_999_visitor(pyx12.error_visitor.error_visitor):
             #seg = ['TA1', err_isa.isa_trn_set_id, err_isa.orig_date, \
             #    err_isa.orig_time]
             ta1_seg = pyx12.segment.Segment('TA1', '~', '*', ':')
-            ta1_seg.append(err_isa.isa_trn_set_id)
-            ta1_seg.append(err_isa.orig_date)
-            ta1_seg.append(err_isa.orig_time)
+            ta1_seg.append(self._echo(err_isa.isa_trn_set_id))
+            ta1_seg.append(self._echo(err_isa.orig_date))
+            ta1_seg.append(self._echo(err_isa.orig_time))
             err_codes = self.__get_isa_errors(err_isa)
             if err_codes:
                 err_cde = err_codes[0]
@@ -170,8 +178,8 @@ class error_999_visitor(pyx12.error_visitor.error_visitor):
         st_seg.set('03', self.vriic)
         self.wr.Write(st_seg)
         ak1 = pyx12.segment.Segment('AK1', '~', '*', ':')
-        ak1.set('01', err_gs.fic)
-        ak1.set('02', err_gs.gs_control_num)
+        ak1.set('01', self._echo(err_gs.fic))
+        ak1.set('02', self._echo(err_gs.gs_control_num))
         ak1.set('03', err_gs.vriic)
         self.wr.Write(ak1)
 
@@ -243,8 +251,8 @@ class error_999_visitor(pyx12.error_visitor.error_visitor):
         if err_st.trn_set_control_num is None:
             raise EngineError('Cannot create AK2: err_st.trn_set_control_num was not set')
         seg_data = pyx12.segment.Segment('AK2', '~', '*', ':')
-        seg_data.set('01', err_st.trn_set_id)
-        seg_data.set('02', err_st.trn_set_control_num.strip())
+        seg_data.set('01', self._echo(err_st.trn_set_id))
+        seg_data.set('02', self._echo(err_st.trn_set_control_num).strip())
         if err_st.vriic is not None:
             # AK203 echoes ST03, which the received set may legitimately omit
             seg_data.set('03', err_st.vriic)
@@ -292,10 +300,10 @@ class error_999_visitor(pyx12.error_visitor.error_visitor):
         """
         valid_IK3_codes = ('1', '2', '3', '4', '5', '6', '7', '8', 'I4', 'I6', 'I7', 'I8', 'I9')
         seg_base = pyx12.segment.Segment('IK3', '~', '*', ':')
-        seg_base.set('01', err_seg.seg_id)
+        seg_base.set('01', self._echo(err_seg.seg_id))
         seg_base.set('02', '%i' % err_seg.seg_count)
         if err_seg.ls_id:
-            seg_base.set('03', err_seg.ls_id)
+            seg_base.set('03', self._echo(err_seg.ls_id))
         #else:
         #    seg_base.set('')
         seg_str = seg_base.format('~', '*', ':')
@@ -337,9 +345,6 @@ class error_999_visitor(pyx12.error_visitor.error_visitor):
                 seg_data = pyx12.segment.Segment(seg_str, '~', '*', ':')
                 seg_data.set('IK403', err_cde)
                 if bad_value:
-                    # the echoed value must not add or split elements or segments of this document
-                    for term in (self.seg_term, self.ele_term, self.subele_term, self.repetition_term):
-                        bad_value = bad_value.replace(term, ' ')
-                    seg_data.set('IK404-1', bad_value)
+                    seg_data.set('IK404-1', self._echo(bad_value))
 # todo: add element context
                 self.wr.Write(seg_data)
